@@ -10,7 +10,8 @@ HELPERS   functions that DO modify the model and are only correct under a stated
           site (`requires`); their bodies are checked assuming it, every reference is checked to establish it.
 EFFECTS   classification of every other callee / attribute write that can touch the model.
 
-Line numbers are those of /repo at the time of writing (HEAD da6f913); they are documentation.  The machine-checked
+Line numbers are those of /repo at HEAD 0d7737c (the tree keeps moving); they are documentation, explain() prints the
+current ones.  The machine-checked
 part of the evidence is the `ev` field: (relpath, qualname, kind, arg) re-verified against the real source on every
 run (`frame_check.verify_evidence`); a row whose evidence no longer holds makes its sites UNDECIDED.
 """
@@ -175,27 +176,28 @@ R, S, MD = CORE + "reaction.py", UT + "solver.py", CORE + "model.py"
 #   form: "set" attribute store | "method" call on a model-kind receiver | "call" call whose receiver is not part
 #         of the model (module function, local container) | "setitem" subscript store | "iadd" augmented assignment
 #   class: pure | ctx | raw:<resource> | copy ; returns: value | elem | part | fresh | copy | wrap (default)
-#   First matching row wins.  Anything unmatched is UNKNOWN and its site is reported undecided.
+#   First matching row wins.  Anything unmatched is UNKNOWN and its site is reported undecided -- in particular every
+#   write to another Model argument (kind X): a `with <model>:` block registers nothing for a different model.
 EFFECTS = [
     # ---- ctx: attribute setters that register their undo (C03 trusted for "undo o do = id")
-    ("set", "PX", "bounds", "ctx", None, [(R, "Reaction.bounds@setter", _RS, None)], "reaction.py L426-428 @resettable"),
-    ("set", "PX", "lower_bound", "ctx", None, [(R, "Reaction.lower_bound@setter", _RS, None)], "reaction.py L344-346"),
-    ("set", "PX", "upper_bound", "ctx", None, [(R, "Reaction.upper_bound@setter", _RS, None)], "reaction.py L385-387"),
-    ("set", "PX", "gene_reaction_rule", "ctx", None, [(R, "Reaction.gene_reaction_rule@setter", _RS, None)], "L666-668"),
-    ("set", "PX", "gpr", "ctx", None, [(R, "Reaction.gpr@setter", _RS, None)], "reaction.py L710-712"),
-    ("set", "PX", "functional", "ctx", None, [(CORE + "gene.py", "Gene.functional@setter", _RS, None)], "gene.py L233-235"),
-    ("set", "MX", "objective", "ctx", None,
+    ("set", "P", "bounds", "ctx", None, [(R, "Reaction.bounds@setter", _RS, None)], "reaction.py L426-428 @resettable"),
+    ("set", "P", "lower_bound", "ctx", None, [(R, "Reaction.lower_bound@setter", _RS, None)], "reaction.py L344-346"),
+    ("set", "P", "upper_bound", "ctx", None, [(R, "Reaction.upper_bound@setter", _RS, None)], "reaction.py L385-387"),
+    ("set", "P", "gene_reaction_rule", "ctx", None, [(R, "Reaction.gene_reaction_rule@setter", _RS, None)], "L666-668"),
+    ("set", "P", "gpr", "ctx", None, [(R, "Reaction.gpr@setter", _RS, None)], "reaction.py L710-712"),
+    ("set", "P", "functional", "ctx", None, [(CORE + "gene.py", "Gene.functional@setter", _RS, None)], "gene.py L233-235"),
+    ("set", "M", "objective", "ctx", None,
      [(MD, "Model.objective@setter", "calls", "set_objective"), (S, "set_objective", "get_context", None)],
-     "model.py L1320 -> solver.py set_objective L202-209 registers reset(expression, direction)"),
-    ("set", "MX", "objective_direction", "ctx", None, [(MD, "Model.objective_direction@setter", _RS, None)], "L1333-1335"),
-    ("set", "MX", "solver", "ctx", None, [(MD, "Model.solver@setter", _RS, None)], "model.py L153-155"),
-    ("set", "MX", "medium", "ctx", None,
+     "model.py L1331 -> solver.py set_objective L202-209 registers reset(expression, direction)"),
+    ("set", "M", "objective_direction", "ctx", None, [(MD, "Model.objective_direction@setter", _RS, None)], "model.py L1344-1346"),
+    ("set", "M", "solver", "ctx", None, [(MD, "Model.solver@setter", _RS, None)], "model.py L153-155"),
+    ("set", "M", "medium", "ctx", None,
      [(MD, "Model.medium@setter", "calls", "lower_bound,upper_bound"), (R, "Reaction.lower_bound@setter", _RS, None),
       (R, "Reaction.upper_bound@setter", _RS, None)], "model.py L346-349 only uses the resettable bound setters"),
     # ---- raw: writes behind the context's back
     ("set", "O", "direction", "raw:objective", None, [], "optlang Objective.direction setter; no cobra context involved"),
     ("set", "P", "objective", "raw:objective", None, [], "model.solver.objective = ... bypasses set_objective"),
-    ("set", "MX", "tolerance", "raw:tolerance", None, [], "model.py L187-222: plain setter, no @resettable"),
+    ("set", "M", "tolerance", "raw:tolerance", None, [], "model.py L187-222: plain setter, no @resettable"),
     ("set", "OP", "lb", "raw:solver", None, [], "optlang variable/constraint bound"),
     ("set", "OP", "ub", "raw:solver", None, [], "optlang variable/constraint bound"),
     ("method", "O", "set_linear_coefficients", "raw:objective", "value", [], "optlang, writes objective coefficients"),
@@ -204,25 +206,25 @@ EFFECTS = [
     ("method", "P", "remove", "raw:remove", "value", [], "solver.remove / container removal with no undo registered"),
     ("method", "P", "add", "raw:solver", "value", [], "solver.add without context registration"),
     # ---- ctx: methods / functions that register their undo
-    ("method", "MX", "add_cons_vars", "ctx", "value",
+    ("method", "M", "add_cons_vars", "ctx", "value",
      [(MD, "Model.add_cons_vars", "calls", "add_cons_vars_to_problem"), (S, "add_cons_vars_to_problem", "get_context", None)],
-     "model.py L961 -> solver.py L384-388"),
-    ("method", "MX", "remove_cons_vars", "ctx", "value",
+     "model.py L972 -> solver.py L384-388"),
+    ("method", "M", "remove_cons_vars", "ctx", "value",
      [(MD, "Model.remove_cons_vars", "calls", "remove_cons_vars_from_problem"),
-      (S, "remove_cons_vars_from_problem", "get_context", None)], "model.py L982 -> solver.py L409-413"),
-    ("method", "MX", "add_boundary", "ctx", "part",
+      (S, "remove_cons_vars_from_problem", "get_context", None)], "model.py L993 -> solver.py L409-413"),
+    ("method", "M", "add_boundary", "ctx", "part",
      [(MD, "Model.add_boundary", "calls", "add_reactions"), (MD, "Model.add_reactions", "get_context", None)],
-     "model.py L681-685: new Reaction, add_reactions; the metabolite is copied by reaction.py L1236-1239 first"),
-    ("method", "MX", "add_reactions", "ctx", "value", [(MD, "Model.add_reactions", "get_context", None)], "L723-752"),
-    ("method", "MX", "remove_reactions", "ctx", "value", [(MD, "Model.remove_reactions", "get_context", None)], "L780-829"),
-    ("method", "MX", "add_metabolites", "ctx", "value", [(MD, "Model.add_metabolites", "get_context", None)], "L522-527"),
-    ("method", "MX", "remove_metabolites", "ctx", "value", [(MD, "Model.remove_metabolites", "get_context", None)], "L573-577"),
-    ("method", "PX", "knock_out", "ctx", "value",
+     "model.py L692-696: new Reaction, add_reactions; the metabolite is copied by reaction.py L1236-1239 first"),
+    ("method", "M", "add_reactions", "ctx", "value", [(MD, "Model.add_reactions", "get_context", None)], "model.py L734-763"),
+    ("method", "M", "remove_reactions", "ctx", "value", [(MD, "Model.remove_reactions", "get_context", None)], "model.py L791-840"),
+    ("method", "M", "add_metabolites", "ctx", "value", [(MD, "Model.add_metabolites", "get_context", None)], "model.py L533-538"),
+    ("method", "M", "remove_metabolites", "ctx", "value", [(MD, "Model.remove_metabolites", "get_context", None)], "model.py L584-588"),
+    ("method", "P", "knock_out", "ctx", "value",
      [(R, "Reaction.knock_out", "calls", "bounds"), (R, "Reaction.bounds@setter", _RS, None),
       (CORE + "gene.py", "Gene.knock_out", "calls", "functional,bounds"), (CORE + "gene.py", "Gene.functional@setter", _RS, None)],
      "reaction.py L1505-1507, gene.py L240-251: only resettable setters"),
-    ("method", "PX", "add_metabolites", "ctx", "value", [(R, "Reaction.add_metabolites", "get_context", None)], "L1294-1320"),
-    ("method", "PX", "subtract_metabolites", "ctx", "value", [(R, "Reaction.subtract_metabolites", "calls", "add_metabolites")], ""),
+    ("method", "P", "add_metabolites", "ctx", "value", [(R, "Reaction.add_metabolites", "get_context", None)], "L1294-1320"),
+    ("method", "P", "subtract_metabolites", "ctx", "value", [(R, "Reaction.subtract_metabolites", "calls", "add_metabolites")], ""),
     ("call", "*", "add_cons_vars_to_problem", "ctx", "value", [(S, "add_cons_vars_to_problem", "get_context", None)], "L384-388"),
     ("call", "*", "remove_cons_vars_from_problem", "ctx", "value", [(S, "remove_cons_vars_from_problem", "get_context", None)], ""),
     ("call", "*", "set_objective", "ctx", "value", [(S, "set_objective", "get_context", None)], "solver.py L202-209"),
@@ -230,7 +232,8 @@ EFFECTS = [
      [(S, "add_absolute_expression", "calls", "add_cons_vars_to_problem")], "solver.py L463-466 (nothing added when add=False)"),
     ("call", "*", "choose_solver", "ctx", "value", [(MD, "Model.solver@setter", _RS, None)],
      "solver.py L306-309: assigns model.solver (resettable) only when a solver name is passed"),
-    ("call", "*", "knock_out_model_genes", "ctx", "wrap", [("cobra/manipulation/delete.py", "knock_out_model_genes", "get_context", None)], "L240-267"),
+    ("call", "*", "knock_out_model_genes", "ctx", "wrap", [("cobra/manipulation/delete.py", "knock_out_model_genes", "calls", "knock_out"), (CORE + "gene.py", "Gene.knock_out", "calls", "functional,bounds")],
+     "manipulation/delete.py L86-90: only gene.knock_out()"),
     ("call", "*", "add_lp_feasibility", "ctx", "value", [(S, "add_lp_feasibility", "calls", "add_cons_vars,objective")],
      "solver.py L624/L629; the raw L625 coefficients sit on the variables whose removal is registered at L624"),
     ("call", "*", "add_lexicographic_constraints", "ctx", "value",
@@ -238,7 +241,7 @@ EFFECTS = [
     ("call", "*", "add_loopless", "ctx", "value", [(FA + "loopless.py", "add_loopless", "calls", "add_cons_vars")],
      "loopless.py L78/L84; raw L90 writes go to the constraint added at L84"),
     # ---- copies
-    ("method", "MX", "copy", "copy", "copy", [], "model.py L374-478 builds new objects, reads self only (shares _compartments by reference)"),
+    ("method", "MX", "copy", "copy", "copy", [], "model.py L374-489 builds new objects, reads self only (L393-395 shares _compartments by reference)"),
     ("call", "*", "ProcessPool", "copy", "value", [], "util/process_pool.py: initializer/initargs run in forked or pickled worker copies"),
     ("method", "PX", "copy", "pure", "fresh", [],
      "reaction.py L942-967 / species.py L75: returns a detached copy; Reaction.copy clears _model at L953-958 and restores"
@@ -263,7 +266,7 @@ EFFECTS = [
      "solver.py L71-105 reads the objective expression, returns a dict keyed by the model's reactions; context.py L49-79"),
     ("call", "*", "len|abs|any|all|str|repr|float|int|bool|isinstance|hasattr|type|id|print|range|round|format|warn|sum|full|zeros"
      "|linspace|interface_to_str", "pure", "value", [], "builtins / numpy: read their arguments, return plain data"),
-    ("call", "*", "list|set|dict|tuple|frozenset|sorted|reversed|enumerate|zip|iter|next|min|max|getattr|product|chain|combinations"
+    ("call", "*", "list|set|dict|tuple|frozenset|sorted|reversed|enumerate|zip|iter|next|min|max|product|chain|combinations"
      "|fromkeys|array|DataFrame|Series|concat|attrgetter|itemgetter|partial|map|filter|add|deepcopy", "pure", "wrap", [],
      "builtins / itertools / pandas constructors: read their arguments, may return (containers of) them"),
     ("call", "*", "append|extend|insert|update|add|setdefault|pop|remove|discard|sort|clear|difference|union|intersection"
@@ -280,8 +283,8 @@ EFFECTS = [
 
 ASSUMPTIONS = [
     "A1 (C03, trusted here, proved/tested under C03): inside `with model:` every context-aware mutator registers an undo "
-    "such that `undo o do = id` on the observable state, and Model.__exit__ (model.py L1410-1413) runs all undos on "
-    "normal and on exceptional exit of the block; Model.__enter__ returns self (L1408), so `with model as m` aliases.",
+    "such that `undo o do = id` on the observable state, and Model.__exit__ (model.py L1421-1431) runs all undos on "
+    "normal and on exceptional exit of the block; Model.__enter__ returns self (L1419), so `with model as m` aliases.",
     "A2: the EFFECTS/HELPERS classification is correct; the `ev` evidence (decorator @resettable, get_context()+context(...)"
     " registration, delegation to such functions) is re-verified on the real source at every run.",
     "A3: a callee that receives no object reachable from the model (receiver, arguments, elements of container arguments)"
